@@ -519,6 +519,10 @@ pub fn execute(case: &Value, _scratch: &str) -> Outcome {
                     match decode::decode(&bytes) {
                         Err(e) => out.violate(Verdict::new("C12", "C12:corrupt-file", &[("raw_sheets_at_save", rawf)], format!("step {}: handle {}: {}", k, i, e))),
                         Ok(d) => {
+                            // a saved file has no integrity problem (index outside its table, dangling relationship, ...)
+                            if let Some(e) = d.errors.first() {
+                                out.violate(Verdict::new("C12", "C12:corrupt-file", &[("raw_sheets_at_save", rawf)], format!("step {}: file saved from handle {}: {} ({} problems)", k, i, e, d.errors.len())));
+                            }
                             // nothing is stored that no cell shows: every non-empty shared string is referred to
                             if let Some((idx, text)) = d.unreferenced_strings().first() {
                                 out.violate(Verdict::new(
@@ -678,6 +682,10 @@ pub fn cases(run_seed: u64, tier: &str, _scratch: &str) -> Vec<Value> {
             steps.push(Step::Reload { h: 0, lazy: true });
             steps.push(Step::Clone { h: 1 });
             nh = 3;
+            if wl.chance(1, 2) {
+                // one of the two lazy copies is materialised completely at once; the other one still has raw sheets
+                steps.push(Step::Op { h: 1 + wl.usize(2), op: Op::ReadAllSheets });
+            }
         }
         for k in 0..len {
             let h = wl.usize(nh);
@@ -694,6 +702,7 @@ pub fn cases(run_seed: u64, tier: &str, _scratch: &str) -> Vec<Value> {
                         }
                         10 => Op::Hyperlink { sheet, cell, url: format!("https://example.com/{}", tag), location: false, tooltip: String::new() },
                         11 => Op::DefinedName { sheet, name: format!("n_{}", k), address: format!("$A${}", 1 + wl.below(9)) },
+                        12 if wl.chance(1, 3) => Op::ReadAllSheets,
                         12 => Op::NewSheet { name: format!("{}N", tag) },
                         13 => Op::RenameSheet { sheet, name: format!("{}R", tag) },
                         0 => Op::SetRich { sheet, cell, parts: vec![tag.clone(), world::gen_text(&mut wl, alpha, 2)] },
